@@ -237,8 +237,17 @@ class C03(Prop):
                    "regex-syntax's parser preserve the language: covered only by the comparison with Spec/Regex.v",
                    "wide strings with \\b / \\B (custom DFA walk, apply_wide_word_boundaries) are not generated"]
 
+    def translators(self, ctx):
+        from translators import consts
+        return consts.run(core.REPO, core.VERIF)
+
     # ---------------------------------------------------------------- generation
     def gen_class(self, rng):
+        if rng.chance(1, 25):
+            # an empty class: can never match
+            return rng.choice([["br", [["range", 0, 255]], True],
+                               ["br", [["perl", "s", False], ["perl", "s", True]], True],
+                               ["br", [["perl", "w", True], ["perl", "w", False]], True]])
         if rng.chance(2, 5):
             return ["perl", rng.choice(["w", "s", "d"]), rng.chance(1, 3)]
         items = []
